@@ -48,6 +48,7 @@ type lcSys struct {
 	seq    int
 	vid    int
 	gated  bool
+	nreal  int
 	rnd    *rand.Rand
 	tick   chan struct{}
 }
@@ -86,9 +87,11 @@ func (s *lcSys) cur() *lcProc {
 func newLcSys(capacity, nprocs int, gated bool, seed int64) (*lcSys, error) {
 	s := &lcSys{cap: capacity, gated: gated, rnd: rand.New(rand.NewSource(seed)), tick: make(chan struct{}, 1)}
 	s.procs = append(s.procs, nil)
-	for i := 1; i <= nprocs; i++ {
+	// ids nprocs+1 .. 2*nprocs are "virtual callers": the nested call a create function makes on the same cache
+	for i := 1; i <= 2*nprocs; i++ {
 		s.procs = append(s.procs, &lcProc{id: i, gate: make(chan string, 1)})
 	}
+	s.nreal = nprocs
 	create := func(pk string) (int, error) {
 		p := s.cur()
 		s.mu.Lock()
@@ -107,7 +110,13 @@ func newLcSys(capacity, nprocs int, gated bool, seed int64) (*lcSys, error) {
 			s.mu.Lock()
 			k := s.rnd.Intn(8)
 			fail := s.rnd.Intn(6) == 0
+			nest := s.rnd.Intn(5) == 0 && p.id <= s.nreal
+			nk := s.rnd.Intn(3)
 			s.mu.Unlock()
+			if inner := absInt(pkNum(pk)); nest && inner < 5 {
+				// a create function that itself uses the cache (for a key of a higher number: no cycles)
+				s.nested(p.id+s.nreal, inner+1+nk)
+			}
 			for i := 0; i < k; i++ {
 				runtime.Gosched()
 			}
@@ -143,6 +152,40 @@ func newLcSys(capacity, nprocs int, gated bool, seed int64) (*lcSys, error) {
 	s.cache = c
 	s.events = append(s.events, map[string]any{"e": "reset", "cap": capacity})
 	return s, nil
+}
+
+func absInt(x int) int {
+	if x < 0 {
+		return -x
+	}
+	return x
+}
+
+// nested performs GetOrCreate(pk) synchronously on the calling goroutine under the identity of virtual caller vid.
+func (s *lcSys) nested(vid, pk int) {
+	g := goid()
+	prev, _ := s.byGo.Load(g)
+	s.byGo.Store(g, vid)
+	defer s.byGo.Store(g, prev)
+	s.mu.Lock()
+	s.ev(map[string]any{"e": "inv", "p": vid, "op": "get", "pk": pk})
+	s.mu.Unlock()
+	ret := map[string]any{"e": "ret", "p": vid}
+	if panicked, pv := callPanics(func() {
+		v, err := s.cache.GetOrCreate(pkName(pk))
+		if err != nil {
+			ret["err"], ret["vid"] = "fail", 0
+		} else {
+			ret["err"], ret["vid"] = "nil", v
+		}
+	}); panicked {
+		ret["crash"] = firstLine(fmt.Sprint(pv))
+	}
+	_, _, _, length, _ := lru.VerifListStats(s.cache)
+	ret["len"] = length
+	s.mu.Lock()
+	s.ev(ret)
+	s.mu.Unlock()
 }
 
 func (s *lcSys) start(pid int, op string, pk int) bool {
@@ -387,7 +430,7 @@ func (s *lcSys) runRandom(steps int, quiet time.Duration, keys []int) {
 
 func (s *lcSys) runStress(rounds int, keys []int) {
 	var wg sync.WaitGroup
-	for pid := 1; pid < len(s.procs); pid++ {
+	for pid := 1; pid <= s.nreal; pid++ {
 		wg.Add(1)
 		seed := s.rnd.Int63()
 		go func(pid int) {
